@@ -101,6 +101,7 @@ Proof. vm_compute. reflexivity. Qed.
 (* ================================================================== SQL dump *)
 Section Dump.
   Variables (tables : nat) (k0 : N).
+  Hypothesis Htab : tables <> O.
 
   Definition dinv (s : world * dphase) : Prop :=
     let '(w, ph) := s in
@@ -117,10 +118,8 @@ Section Dump.
   Lemma dinv_step s : dinv s -> dinv (dump_step tables tables s).
   Proof.
     destruct s as [w ph]. destruct ph as [|j|]; cbn [dinv dump_step].
-    - intros (H1 & Hs & Ho). destruct (0 <? tables)%nat eqn:E0.
-      + sw. repeat split; try assumption; try lia. left. repeat split; assumption.
-      + apply Nat.ltb_ge in E0. assert (tables = O) by lia. sw. repeat split; try assumption; try lia.
-        right. exists (k w). subst tables. rewrite Hs, Ho. cbn. repeat split; try lia. discriminate.
+    - intros (H1 & Hs & Ho). replace (0 <? tables)%nat with true by (symmetry; apply Nat.ltb_lt; lia).
+      sw. repeat split; try assumption; try lia. left. repeat split; assumption.
     - destruct j as [|j]; intros (H1 & Hj & [(Hs & Ho & E) | (v & Hs & Ho & Hv)]).
       + sw. split; [assumption|]. left. split; [symmetry; exact E | exact Ho].
       + sw. split; [assumption|]. right. exists v.
@@ -152,11 +151,11 @@ Section Dump.
   (* inside one read transaction every table of the dump is read at the same committed state
      (hypothesis of the model: a SQLite read transaction keeps the snapshot of its first read) *)
   Theorem dump_is_version sched w0 w :
-    k w0 = k0 -> snap w0 = None -> out w0 = [] -> tables <> O ->
+    k w0 = k0 -> snap w0 = None -> out w0 = [] ->
     run (dump_step tables tables) sched (w0, DBegin) = (w, DDone) ->
     point_in_time k0 w tables.
   Proof.
-    intros Hk Hs Ho Ht Hrun.
+    intros Hk Hs Ho Hrun.
     assert (I : dinv (w, DDone)).
     { rewrite <- Hrun. apply run_inv; [apply dinv_step | apply dinv_env |].
       cbn [dinv]. repeat split; try assumption; lia. }
